@@ -12,6 +12,7 @@ import (
 
 var commands = map[string]func([]string){
 	"sweep":      cmdSweep,
+	"suite":      cmdSuite,
 	"mockrun":    cmdMockRun,
 	"window":     cmdWindow,
 	"mocklife":   cmdMockLife,
